@@ -67,13 +67,19 @@ class patched_client_module:
         self.fake = _FakeTime()
         client.time = self.fake
         self.rnd = random.getstate()
+        import logging
+
         self.level = client.logger.level
-        client.logger.setLevel(100)
+        self.disabled = logging.root.manager.disable
+        logging.disable(logging.CRITICAL)
         return self
 
     def __exit__(self, *exc):
         self.client.time = self.old_time
         random.setstate(self.rnd)
+        import logging
+
+        logging.disable(self.disabled)
         self.client.logger.setLevel(self.level)
 
 
